@@ -282,31 +282,63 @@ def core_checked(bindir, wss, fails, stats=None):
 
 
 # ---------------------------------------------------------------------------------------------------------
-# translator tie of the hand model of the indexer (group lines): tools/translate/t_indexer.py regenerates coq/gen/GenIndexer.v
-# from the CURRENT index/scope.rs, index/context.rs, index.rs; props/IndexerSource.v states that each rendered function is the
-# hand model's (proofs/GenIndexerEq.v).  PARTIAL: the statement lists exactly the covered functions.
-INDEXER_TRANSLATORS = ["t_indexer"]
+# translator ties of the hand models to their source (other groups' translators; my model files are only imported):
+#  * group lines: tools/translate/t_indexer.py regenerates coq/gen/GenIndexer.v from the CURRENT index/scope.rs, index/context.rs,
+#    index.rs; props/IndexerSource.v states that each rendered function is the hand model's (proofs/GenIndexerEq.v).  PARTIAL: the
+#    statement lists exactly the covered functions.
+#  * group lexprep: tools/translate/t_bangops.py regenerates coq/gen/GenBangOps.v from the CURRENT index/bang_operator.rs;
+#    props/BangOpsSource.v: every rendered arm is Indexer.index_bang as a (result, state) pair, for all 51 operators.
+#  * group outline: tools/translate/t_handlers.py regenerates coq/gen/GenHandlers.v from the CURRENT handlers/goto_definition.rs and
+#    handlers/references.rs `exec`; props/HandlersSource.v: the rendering is SymbolMap.goto_definition / SymbolMap.references.
+INDEXER_TRANSLATORS = ["t_indexer", "t_bangops"]
+# HandlersSource.v also states C20_dispatch_is_source, whose cone needs GenCompletion.v (t_completion) and GenFoldKinds.v
+HANDLER_TRANSLATORS = ["t_foldkinds", "t_completion", "t_handlers"]
 INDEXER_SOURCE_THEOREMS = ["Indexer_model_is_source_partial"]
+BANGOPS_SOURCE_THEOREMS = ["BangOps_model_is_source_partial", "BangOps_covered_ops_complete", "BangOps_all_arms_rendered",
+                           "BangOps_model_is_source_all"]
+HANDLERS_SOURCE_THEOREMS = ["Goto_model_is_source", "References_model_is_source"]
 INDEXER_SOURCE_TRUSTED = (
-    "the hand model coq/model/{Scope,Indexer}.v is ALSO tied to its source by translation + proof for the functions listed in "
-    "props/IndexerSource.v Indexer_model_is_source_partial (t_indexer -> coq/gen/GenIndexer.v rendered on every run from the current "
-    "index/scope.rs, index/context.rs and index.rs; proofs/GenIndexerEq.v; design/notes-translator-indexer.md: all of scope.rs, "
-    "context.rs but new/finish, 21 of the 39 impls of index.rs; NOT bang_operator.rs, values, template arguments, parent lists, "
-    "field definitions - those stay tied by the correspondence run only); trusted there: the translator t_indexer and "
-    "coq/model/IndexerSrc.v")
+    "for Core programs the hand models are ALSO tied to their source by translation + proof: coq/model/{Scope,Indexer}.v for the "
+    "functions listed in props/IndexerSource.v Indexer_model_is_source_partial (t_indexer -> coq/gen/GenIndexer.v rendered on every "
+    "run from the current index/scope.rs, index/context.rs and index.rs; proofs/GenIndexerEq.v; design/notes-translator-indexer.md: "
+    "about 60 of the 65 functions of scope.rs / context.rs / index.rs - the statement lists exactly the covered ones; not "
+    "check_template_args, Context::new / finish, the salsa entry point `index`); "
+    "coq/model/BangOps.v + Indexer.index_bang for ALL 51 operators of index/bang_operator.rs (t_bangops -> coq/gen/GenBangOps.v; "
+    "props/BangOpsSource.v BangOps_model_is_source_all with BangOps_covered_ops_complete and BangOps_all_arms_rendered; "
+    "design/notes-translator-bangops.md); trusted there: the translators t_indexer / t_bangops (Rust subset readers) and the "
+    "vocabulary files coq/model/IndexerSrc.v, BangOpsSrc.v.  typ.rs (Typ.v: can_be_casted_to, the element / bits typing helpers) and "
+    "the AST accessor table stay trusted tables, tied by the correspondence run only")
+HANDLERS_SOURCE_TRUSTED = (
+    "handlers/goto_definition.rs and handlers/references.rs `exec` are tied to SymbolMap.goto_definition / SymbolMap.references by "
+    "translation + proof (t_handlers -> coq/gen/GenHandlers.v rendered on every run; props/HandlersSource.v Goto_model_is_source, "
+    "References_model_is_source, for all symbol-map states and positions; a panic of find_symbol_at's lookup is an error outcome on "
+    "both sides); trusted there: the translator t_handlers and coq/model/HandlerApi.v, HandlerSymApi.v (enum Symbol as a view of the "
+    "arena entry)")
+
+SOURCE_TIES = [
+    ("IndexerSource", "TG.Props.IndexerSource", INDEXER_SOURCE_THEOREMS, "props/IndexerSource.vo", INDEXER_SOURCE_TRUSTED),
+    ("BangOpsSource", "TG.Props.BangOpsSource", BANGOPS_SOURCE_THEOREMS, "props/BangOpsSource.vo", None),
+]
+HANDLER_TIES = [
+    ("HandlersSource", "TG.Props.HandlersSource", HANDLERS_SOURCE_THEOREMS, "props/HandlersSource.vo", HANDLERS_SOURCE_TRUSTED),
+]
 
 
-def source_tie(ctx, fails):
-    """obligation shared by C05 / C13: Indexer_model_is_source_partial for the CURRENT source text (the translator t_indexer
-    must be among the translators of the check's proof_step, which runs before this)"""
-    r = vlib.prove("TG.Props.IndexerSource", INDEXER_SOURCE_THEOREMS, ["props/IndexerSource.vo"])
-    fails += r["failures"]
-    ctx.cov["obligations"] = ctx.cov.get("obligations", 0) + r["obligations"]
-    ctx.cov["discharged"] = ctx.cov.get("discharged", 0) + r["discharged"]
-    ctx.cov["theorems"] = list(ctx.cov.get("theorems", [])) + ["IndexerSource." + t for t in INDEXER_SOURCE_THEOREMS]
-    apt = dict(ctx.cov.get("axioms_per_theorem", {}))
-    apt.update({"IndexerSource." + k: v for k, v in r["assumptions"].items()})
-    ctx.cov["axioms_per_theorem"] = apt
-    ctx.cov["trusted_base"] = list(ctx.cov.get("trusted_base", [])) + [INDEXER_SOURCE_TRUSTED]
-    ctx.cov["coq_wall_s"] = round(ctx.cov.get("coq_wall_s", 0) + r["wall_s"], 2)
-    return r
+def source_tie(ctx, fails, handlers=False):
+    """obligations shared by C05 / C13: the hand models are the CURRENT source text (the translators INDEXER_TRANSLATORS, and
+    HANDLER_TRANSLATORS with `handlers`, must be among the translators of the check's proof_step, which runs before this)"""
+    out = []
+    for pre, module, theorems, target, trusted in SOURCE_TIES + (HANDLER_TIES if handlers else []):
+        r = vlib.prove(module, theorems, [target])
+        fails += r["failures"]
+        ctx.cov["obligations"] = ctx.cov.get("obligations", 0) + r["obligations"]
+        ctx.cov["discharged"] = ctx.cov.get("discharged", 0) + r["discharged"]
+        ctx.cov["theorems"] = list(ctx.cov.get("theorems", [])) + [pre + "." + t for t in theorems]
+        apt = dict(ctx.cov.get("axioms_per_theorem", {}))
+        apt.update({pre + "." + k: v for k, v in r["assumptions"].items()})
+        ctx.cov["axioms_per_theorem"] = apt
+        if trusted:
+            ctx.cov["trusted_base"] = list(ctx.cov.get("trusted_base", [])) + [trusted]
+        ctx.cov["coq_wall_s"] = round(ctx.cov.get("coq_wall_s", 0) + r["wall_s"], 2)
+        out.append(r)
+    return out
